@@ -26,6 +26,7 @@ sR == <<"svar","R",FunT(TA,BoolT)>>
 sz == <<"svar","z",SA>>         \* schematic variable of schematic type
 B0 == <<"bound",0>>
 vp == <<"var","p",SA>>          vq == <<"var","q",SA>>      \* variables of schematic type
+sQ2 == <<"svar","Q2",FunT(SA,BoolT)>>                       \* ?'a occurs only in the types of schematic variables
 AllEq == Forall(vp, Forall(vq, MkEq(vp, vq)))              \* "?'a has one element": true or false depending on the model
 
 TermsA == {vx, vy, sx, App(vf, vx), App(vf, sx)}
@@ -38,7 +39,7 @@ Redexes == { App(Lambda(vx, b), a) : b \in {App(vR, vx), App(vf, vx), vy}, a \in
 \* adversarial arguments: ill-typed applications, loose bound variables, non-boolean "propositions"
 Adversarial == { App(vA, vx), App(vR, vA), App(vf, vA), B0, App(vR, B0), vx, vf,
                  <<"abs", TA, <<"bound", 1>> >>, App(Lambda(vx, App(vR, vx)), vA) }
-AssumePool == IF Focus THEN {AllEq, sP, MkEq(sz, sz)} ELSE
+AssumePool == IF Focus THEN {AllEq, sP, MkEq(sz, sz), App(sQ2, sz)} ELSE
    Props1 \cup Adversarial
 ReflPool == IF Focus THEN {sz} ELSE
    TermsA \cup {vA, sP, vf, vR, Lambda(vx, App(vR, vx))} \cup Redexes \cup Adversarial
